@@ -1022,14 +1022,16 @@ public:
         pushFrame(s0, entry, noargs, nullptr);
         work.push_back(std::move(s0));
         // phase 1: breadth-first until there is enough work to share out
-        size_t spread = jobs > 1 ? (size_t)jobs * 6 : 0;
+        size_t spread = jobs > 1 ? (size_t)jobs * 16 : 0;
+        double tPhase1 = now();
         while (!work.empty() && work.size() < spread) {
             if (st.paths >= maxPaths) break;
             State s = std::move(work.front());
             work.erase(work.begin());
-            double t0 = now();
             runState(s);
-            if (now() - t0 > 0.5 && work.size() >= 2) break;  // states are expensive: share out what there is
+            // states are expensive: share out what there is (round-robin over the workers evens out unequal subtrees only if there are many states)
+            double el = now() - tPhase1;
+            if ((el > 15 && work.size() >= (size_t)jobs * 2) || (el > 45 && work.size() >= 2)) break;
         }
         int rank = -1;
         std::vector<pid_t> kids;
